@@ -194,6 +194,20 @@ func runC01(r *ev.Run) {
 	r.Set("u2_depth", depth)
 	r.Set("u2_nodes", u2nodes.Load())
 
+	// --- en-passant family: the position REACHED BY PLAYING a double push between 0-2 capturers, with both
+	// kings and one slider anywhere: the playable set after the push (en-passant captures included) must be the legal set
+	var epN atomic.Int64
+	epFamily(r, []int{int((r.Seed + 1) % 8), int((r.Seed + 4) % 8)}, ev.Pick(r, []int8{0, 4, -4, -5}, []int8{0, 3, 4, 5, -3, -4, -5, 2, -2}), func(ld *eng.Loader, pos *refchess.Pos, mm refchess.Move, child *refchess.Pos) {
+		if epN.Add(1)%int64(ev.Pick(r, 2, 1)) != 0 {
+			return
+		}
+		b := ld.Load(pos)
+		b.MakeMove(move.Move(mm.Enc()))
+		ms := ld.Store()
+		check(ms, b, child, func() c01Case { return c01Case{FEN: pos.FEN(), Moves: []string{mm.String()}, How: "played"} })
+	})
+	r.Set("ep_family_positions", epN.Load())
+
 	// --- long reversible lines: positions reached by many moves (clocks far
 	// beyond 100, rights kept alive), playable set compared after every ply ---
 	var longPlies atomic.Int64
